@@ -35,6 +35,7 @@ class Buffer:
         self.kind = kind
         self.base_name = self.name  # cell-atom family of the initial content
         self.init = None  # optional defining function of the initial content: idx -> Sym
+        self.refinements = []  # (box, predicate on the cell value): facts about the INITIAL content
 
     def base(self, idx) -> Sym:
         if self.init is not None:
@@ -52,6 +53,14 @@ class Buffer:
         memo[key] = r
         return r
 
+    def _refine(self, idx, v):
+        """instantiate, at the cell just read, the universally quantified facts recorded by global
+        predicates of the real code (`arr.any()`, `np.allclose(arr, c)` on an input array)"""
+        for box, pred in self.refinements:
+            if ctx.decide(membership(idx, box)) is True:
+                ctx.assume(pred(v))
+        return v
+
     def _read(self, idx, upto) -> Sym:
         k = upto - 1
         while k >= 0:
@@ -63,7 +72,7 @@ class Buffer:
             if d is None:
                 return ite(inside, rhs(idx), self.read(idx, k))
             k -= 1
-        return self.base(idx)
+        return self._refine(idx, self.base(idx)) if self.refinements else self.base(idx)
 
     def write(self, box, rhs, tag=""):
         self.log.append((tuple(box), rhs, tag))
@@ -274,6 +283,34 @@ class View:
     def fill(self, value):
         self._assign(value, "fill")
 
+    # ---- global predicates of the real code on an (unmodified) input array --------------------------
+    def _global_predicate(self, name, cell_pred):
+        """fork on `all cells satisfy cell_pred`: True path records the fact for every cell read later;
+        False path introduces a witness cell violating it.  Returns the truth value on this path."""
+        if self.buf.log:
+            raise Unsupported(f"{name} on a field that was already written in this execution")
+        tag = ",".join(f"{s[1]}={s[2]}" for s in self.spec if s[0] == "fix")
+        z = Sym.I(f"{name}({self.buf.name}|{tag})")
+        ctx.assume(z >= 0)
+        ctx.assume(z <= 1)
+        if ctx.branch(z == 1):
+            self.buf.refinements.append((self._box(), cell_pred))
+            return True
+        w = []
+        for a, s in enumerate(self.vaxes):
+            v = Sym.I(f"{name}_witness_{self.buf.name}_{a}")
+            ctx.assume(v >= 0)
+            ctx.assume(v < S(s[3]))
+            w.append(v)
+        ctx.assume(~cell_pred(self.at(w)))
+        return False
+
+    def any(self):
+        return not self._global_predicate("allzero", lambda v: v == 0)
+
+    def all(self):
+        raise Unsupported("View.all()")
+
     def concrete_shape(self):
         sh = self.shape
         if not all(isinstance(n, int) for n in sh):
@@ -376,7 +413,9 @@ class View:
 
     def old(self, c) -> Sym:
         """initial value (before anything in the log) at view cell c."""
-        return self.buf.base(self.buf_index(c))
+        idx = self.buf_index(c)
+        v = self.buf.base(idx)
+        return self.buf._refine(idx, v) if self.buf.refinements else v
 
     def in_bounds(self, c) -> BoolSym:
         return all_of(*[(S(ci) >= 0) & (S(ci) < s[3]) for ci, s in zip(c, self.vaxes)])
@@ -391,7 +430,12 @@ class View:
     __array_ufunc__ = None  # numpy binary operators defer to View.__r*__
 
     def __array_function__(self, func, types, args, kwargs):
-        raise Unsupported(f"numpy function {func.__name__} on a symbolic field")
+        # numpy functions called by the real code on a symbolic field are routed to svx.symnp
+        from . import symnp
+        impl = getattr(symnp.SymNp, func.__name__, None)
+        if impl is None or func.__name__ in ("ndarray",):
+            raise Unsupported(f"numpy function {func.__name__} on a symbolic field")
+        return impl(symnp.SymNp(), *args, **kwargs)
 
 
 def _same_spec(a, b):
